@@ -69,6 +69,27 @@ theorem C20_adjusted_sound_of_project_equations_reachable (halg : alg ≠ .svd) 
     rw [hp] at h2
     exact h2.symm
 
+/-- **… at `R := SubOf net`** (round 13): the sub-configurations of the given network — same ids, every status the given one
+    or `unused` — are closed under everything the decision layer does with the executed world (`closed_subOf`:
+    `project_equations()` only makes coordinate groups unused, `peWorld_subOf`, from `pe_final`'s `Below`).  So the ONLY
+    per-configuration hypothesis left is `NetHyp alg np` on the (finitely many) sub-configurations of `net` -/
+theorem C20_adjusted_sound_of_project_equations_subconfigurations (halg : alg ≠ .svd) (hds : DirFromStation base)
+    (net : NetDecision.Net)
+    (hH : ∀ dnet, SubOf net dnet → ∀ np, (@peWorld K (trigOfField t) base dnet).prob = some np → NetHyp alg np)
+    (d : Nat)
+    (h : (NetDecision.decide m0 (worldOf (@peWorld K (trigOfField t) base) (obsNet alg)) net).2 = .adjusted d) :
+    ∃ n0,
+      (∀ np0, (peOn t (SubOf net) base n0).prob = some np0 →
+        (∃ a, netSolve alg np0 = .ok a ∧ a.defect = d) ∧
+        Resolves (toProblem np0).A (toProblem np0).S ∧ d + (toProblem np0).A.rank = np0.n) ∧
+      ((peOn t (SubOf net) base n0).prob = none → d = 0) ∧
+      (peOn t (SubOf net) base n0).net =
+        (generalParameters ((worldOf (peOn t (SubOf net) base) (obsNet alg)).abs m0) (fuelFor net) (fuelFor net)
+          (St.init net)).1.net ∧
+      d ≤ minN (peOn t (SubOf net) base n0).unknowns (peOn t (SubOf net) base n0).net :=
+  C20_adjusted_sound_of_project_equations_reachable t base alg m0 halg hds (SubOf net) (closed_subOf t base alg m0 net) hH
+    net (SubOf.refl net) d h
+
 /-- the unrestricted theorem is the case `R = everything` (so nothing is lost) -/
 example (halg : alg ≠ .svd) (hH : WorldHyp t base alg) :
     Closed (fun _ => True) ((worldOf (@peWorld K (trigOfField t) base) (obsNet alg)).abs m0) ∧
